@@ -59,7 +59,7 @@ def base_cells(tier):
     for sysname, cc in (("triclinic", "standard"), ("monoclinic", "standard"), ("orthorhombic", "standard"), ("tetragonal", "standard"),
                         ("hexagonal", "standard"), ("trigonal", "rhombohedral"), ("cubic", "standard")):
         cs += alph.conforming_cells(sysname, cc, "thorough")
-    cs += [[5.0, 6.0, 7.0, 90.0, 90.0, 90.0], [3.0, 4.0, 5.0, 80.0, 95.0, 100.0], [9.07599708738, 6.05007626616, 43.921476668199631, 90.0, 90.0, 90.0], [4.0, 9.0, 30.0, 75.0, 85.0, 95.0]]
+    cs += [[3.0, 10.0, 11.0, 90.0, 90.0, 90.0], [2.5, 9.0, 20.0, 80.0, 85.0, 95.0], [5.0, 6.0, 7.0, 90.0, 90.0, 90.0], [3.0, 4.0, 5.0, 80.0, 95.0, 100.0], [9.07599708738, 6.05007626616, 43.921476668199631, 90.0, 90.0, 90.0], [4.0, 9.0, 30.0, 75.0, 85.0, 95.0]]
     if tier == "thorough":
         cs += alph.cells("quick", lens=[(3, 4, 5), (5.1, 6.3, 7.7)], angs=[60, 75, 90, 105, 120])
     out = []
